@@ -206,3 +206,133 @@ pub fn run_strings(case: &Value, seed: u64) -> Outcome {
     }
     o
 }
+
+// ------------------------------------------------------------------ documents (MCDeb822Docs)
+
+pub fn doc_features(case: &Value) -> Vec<String> {
+    let mut f = string_features(case);
+    if case["j"].as_bool() == Some(true) { f.push("junk".into()); }
+    let kinds: Vec<&str> = case["kd"].as_array().map(|a| a.iter().filter_map(|x| x.as_str()).collect()).unwrap_or_default();
+    for w in kinds.windows(2) {
+        if (w[0] == "F" || w[0] == "C") && w[1] == "#" { f.push("comment_after_field".into()); }
+    }
+    f.sort(); f.dedup();
+    f
+}
+
+/// C03 on one concrete text: strict acceptance, exact content, lookups.
+pub fn check_reading(o: &mut Outcome, text: &str, expected: &[Vec<(String, String)>], feats: &[String]) {
+    let r = match guarded("Deb822::from_str", || Deb822::from_str(text)) {
+        Ok(r) => r,
+        Err(m) => { o.v("C03", "accept", "Deb822::from_str", "panic", feats, text, m); return; }
+    };
+    o.evals += 1;
+    let d = match r {
+        Ok(d) => d,
+        Err(e) => { o.v("C03", "accept", "Deb822::from_str", "mismatch", feats, text, format!("well-formed document rejected: {:?}", e)); return; }
+    };
+    let got = real_ll_content(&d);
+    if got != expected {
+        o.v("C03", "content", "Deb822::paragraphs/items", "mismatch", feats, text, format!("got {:?} expected {:?}", got, expected));
+        return;
+    }
+    for (p, exp) in d.paragraphs().zip(expected.iter()) {
+        let keys: Vec<String> = p.keys().collect();
+        if keys != exp.iter().map(|(k, _)| k.clone()).collect::<Vec<_>>() {
+            o.v("C03", "lookup", "Paragraph::keys", "mismatch", feats, text, format!("{:?}", keys));
+        }
+        for (k, _) in exp.iter() {
+            let first = exp.iter().find(|(k2, _)| k2 == k).map(|(_, v)| v.clone());
+            if p.get(k) != first {
+                o.v("C03", "lookup", "Paragraph::get", "mismatch", feats, text, format!("get({:?}) = {:?}, expected {:?}", k, p.get(k), first));
+            }
+            let all: Vec<String> = exp.iter().filter(|(k2, _)| k2 == k).map(|(_, v)| v.clone()).collect();
+            if p.get_all(k).collect::<Vec<_>>() != all {
+                o.v("C03", "lookup", "Paragraph::get_all", "mismatch", feats, text, format!("get_all({:?})", k));
+            }
+            if !p.contains_key(k) {
+                o.v("C03", "lookup", "Paragraph::contains_key", "mismatch", feats, text, format!("contains_key({:?}) false", k));
+            }
+        }
+        let absent = "Zz-absent";
+        if p.get(absent).is_some() || p.contains_key(absent) || p.get_all(absent).count() != 0 {
+            o.v("C03", "lookup", "Paragraph::get", "mismatch", feats, text, "absent key found".into());
+        }
+    }
+    match guarded("lossless::Paragraph::from_str", || deb822_lossless::Paragraph::from_str(text)) {
+        Err(m) => o.v("C03", "first_paragraph", "lossless::Paragraph::from_str", "panic", feats, text, m),
+        Ok(r) => {
+            let got: Option<Vec<(String, String)>> = r.ok().map(|p| p.items().collect());
+            let exp = expected.first().cloned();
+            if got != exp {
+                o.v("C03", "first_paragraph", "lossless::Paragraph::from_str", "mismatch", feats, text, format!("got {:?} expected {:?}", got, exp));
+            }
+        }
+    }
+    // C06, joint acceptance clause: the lossy reader accepts every well-formed document
+    match guarded("lossy::Deb822::from_str", || deb822_lossless::lossy::Deb822::from_str(text)) {
+        Err(_) => {} // reported by observe_text
+        Ok(Err(e)) => o.v("C06", "accept_wf", "lossy::Deb822::from_str", "mismatch", feats, text, format!("well-formed document rejected: {}", e)),
+        Ok(Ok(_)) => {}
+    }
+}
+
+pub fn run_docs(case: &Value, seed: u64) -> Outcome {
+    let mut o = Outcome::default();
+    let cls = classes_of(case);
+    let feats = doc_features(case);
+    o.key = cls.join("");
+    o.nontrivial = true;
+    let junk = case["j"].as_bool() == Some(true);
+    let mut seen = std::collections::HashSet::new();
+    for m in 0..super::nmaps() {
+        let text = conc::deb822_text(&cls, m, seed, conc::hash64(&o.key));
+        if !seen.insert(text.clone()) { continue; }
+        observe_text(&mut o, case, &text, &feats, true);
+        let chars: Vec<char> = text.chars().collect();
+        if junk {
+            match guarded("Deb822::from_str", || Deb822::from_str(&text).is_ok()) {
+                Ok(true) => o.v("C03", "reject", "Deb822::from_str", "mismatch", &feats, &text, "document with a line that is neither field, continuation, comment nor blank accepted".into()),
+                _ => {}
+            }
+            o.evals += 1;
+        } else {
+            let expected = model_ll_content(&chars, &case["x"]);
+            check_reading(&mut o, &text, &expected, &feats);
+        }
+        if o.sample.is_null() {
+            o.sample = json!({"classes": o.key, "text": text, "line_kinds": case["kd"], "junk": junk, "expected": case["x"]});
+        }
+    }
+    o
+}
+
+// ------------------------------------------------------------------ real texts (MCDeb822File)
+static CASEFILE: std::sync::OnceLock<std::collections::HashMap<u64, (String, String)>> = std::sync::OnceLock::new();
+pub fn casefile() -> &'static std::collections::HashMap<u64, (String, String)> {
+    CASEFILE.get_or_init(|| {
+        let mut m = std::collections::HashMap::new();
+        if let Ok(p) = std::env::var("CASEFILE") {
+            if let Ok(s) = std::fs::read_to_string(p) {
+                for l in s.lines() {
+                    if let Ok(v) = serde_json::from_str::<Value>(l) {
+                        m.insert(v["id"].as_u64().unwrap_or(0), (v["text"].as_str().unwrap_or("").to_string(), v["src"].as_str().unwrap_or("").to_string()));
+                    }
+                }
+            }
+        }
+        m
+    })
+}
+
+pub fn run_files(case: &Value, _seed: u64) -> Outcome {
+    let mut o = Outcome::default();
+    let id = case["id"].as_u64().unwrap_or(0);
+    let (text, src) = match casefile().get(&id) { Some(t) => t.clone(), None => { o.d("missing_case", "", format!("id {}", id)); return o; } };
+    o.key = text.clone();
+    o.nontrivial = text.len() > 10;
+    let feats = vec![];
+    observe_text(&mut o, case, &text, &feats, true);
+    o.sample = json!({"source": src, "text": text.chars().take(120).collect::<String>(), "model_errors": case["e"], "model_lossy": case["ls"]});
+    o
+}
